@@ -48,7 +48,7 @@ func VerifH_C11_Blocking() {
 	cli := &BaseClient{Transport: conn}
 	kind := verifChoice("call", 6)
 	answered := verifChoice("answered", c11Steps(kind)) // exchange packets answered before the cause
-	cause := verifChoice("cause", 5)                    // 0 cancel, 1 deadline, 2 local Close, 3 peer close, 4 malformed packet
+	cause := verifChoice("cause", 6)                    // 0 cancel, 1 deadline, 2 local Close, 3 peer close, 4 malformed packet, 5 Disconnect from another goroutine
 	second := -1
 	if kind != c11Connect && verifChoice("two", 2) == 1 {
 		second = c11Sub
@@ -112,6 +112,8 @@ func VerifH_C11_Blocking() {
 	}
 	defer cancel()
 	returned, returned2 := false, false
+	disconnectReturned := false
+	skipFinal := false
 	var err1, err2 error
 	causeApplied := false
 	if cause != 1 {
@@ -131,11 +133,23 @@ func VerifH_C11_Blocking() {
 			case 4:
 				verifEvent("cause:malformed")
 				conn.inject([]byte{0xF0, 0})
+			case 5:
+				verifEvent("cause:disconnect")
+				_ = cli.Disconnect(context.Background())
+				disconnectReturned = true
 			}
 		}()
 	}
 	verifOnQuiescence(func() {
 		verifReach("after-cause")
+		if cause == 5 && kind != c11Connect {
+			verifAssert(disconnectReturned, "C11.disconnect_returns_while_other_call_blocked")
+		}
+		if cause == 5 && kind == c11Connect {
+			// Disconnect waits for a Connect that is still waiting for its CONNACK: outside the claim
+			skipFinal = true
+			return
+		}
 		verifAssert(returned, "C11.call_returns")
 		if second >= 0 {
 			verifAssert(returned2, "C11.second_call_returns")
@@ -165,6 +179,9 @@ func VerifH_C11_Blocking() {
 	})
 	verifOnQuiescence(func() {
 		verifReach("final")
+		if skipFinal {
+			return
+		}
 		verifAssert(verifLive() == 0, "C11.nothing_left_running")
 	})
 	if kind != c11Connect {
